@@ -80,8 +80,8 @@ CLAIMS = {
   TRUST + "Sortedness and permutation of the output additionally rest on T-STD for container/heap (Pop returns a minimum by Less). Mixed-kind columns compare as unordered. The elision relies on C01's scan order.",
   "DESIGN.md section 5, C07"),
  "C09": ("proof",
-  "Accumulators only: count, sum, avg, min, max are proved to be left folds in scan order (Update = one step on the converted argument value, unchanged on evaluation failure; Complete = the documented read-out; Clone = fresh initial state).",
-  TRUST + "The grouping (prepare, group keys, row construction and rendering), group_concat, json_arrayagg and quantile are NOT yet under contract; the known key-collision defect (plain concatenation of group values) is neither repaired nor detected yet. Floats uninterpreted.",
+  "Accumulators and group keys: count, sum, avg, min, max are proved to be left folds in scan order (Update = one step on the converted argument value, unchanged on evaluation failure; Complete = the documented read-out; Clone = fresh initial state); the group key (row and batch path) is the length-prefixed encoding of the rendered group-by values, injective for up to 3 columns (lemmas).",
+  TRUST + "The dispatch from group key to row (prepare / prepareBatch, row construction and rendering), group_concat, json_arrayagg and quantile are NOT yet under contract. Floats uninterpreted; cat-cancellation of byte strings is an axiom.",
   "DESIGN.md section 5, C09"),
 }
 
